@@ -99,6 +99,23 @@ static void emit(const json& j)
     fflush(stdout);
 }
 
+// "$name" strings inside an op are replaced by the value an earlier op bound with "bind": "name".
+static void substitute(json& j, const std::map<std::string, json>& vars)
+{
+    if (j.is_string())
+    {
+        const auto& s = j.get_ref<const std::string&>();
+        if (s.size() > 1 && s[0] == '$')
+        {
+            auto it = vars.find(s.substr(1));
+            if (it == vars.end()) throw harness_error("unbound variable " + s);
+            j = it->second;
+        }
+    }
+    else if (j.is_array() || j.is_object())
+        for (auto& x : j) substitute(x, vars);
+}
+
 static void on_signal(int sig)
 {
     const char* n = sig == SIGSEGV ? "SIGSEGV" : sig == SIGFPE ? "SIGFPE" : sig == SIGBUS ? "SIGBUS" : sig == SIGILL ? "SIGILL" : "SIGABRT";
@@ -145,8 +162,10 @@ int main(int argc, char** argv)
         shim_set_step_budget(50000000);
         shim_set_inflate_budget(100000);
         int i = 0;
-        for (auto& op : c["ops"])
+        std::map<std::string, json> vars;
+        for (auto& op_in : c["ops"])
         {
+            json op = op_in;
             json ev;
             ev["i"] = i++;
             std::string name = op["op"].get<std::string>();
@@ -159,10 +178,17 @@ int main(int argc, char** argv)
             }
             try
             {
+                substitute(op, vars);
                 json ret;
                 bool ok = dispatch_api(st, name, op, ret) || dispatch_codec(st, name, op, ret) ||
                           dispatch_table(st, name, op, ret);
                 if (!ok) throw harness_error("unknown op " + name);
+                if (op.contains("bind"))
+                {
+                    json v = op.contains("bind_field") ? ret.at(op["bind_field"].get<std::string>()) : ret;
+                    if (op.value("bind_hex", false)) v = hex_of(v.get<std::string>());
+                    vars[op["bind"].get<std::string>()] = v;
+                }
                 ev["ret"] = std::move(ret);
             }
             catch (const std::exception& e)
